@@ -96,9 +96,8 @@ func genLuaExec(seed uint64, tier, variant string) any {
 	// A queue that fills up (2-8 slots for up to 6 tasks) makes putters wait inside the queue; when the connection then
 	// dies, the clean-up loop, the writer and the woken putters contend for slot locks while running freely, and who
 	// finds a lock taken is the Go runtime's choice (full queues are C02's subject): at least 16 slots per connection.
-	if p.Opt.RingScale < 4 {
-		p.Opt.RingScale = 4
-	}
+	// (and at most 64: a cluster plan has up to 16 connections, each slot carries a scheduler-aware lock)
+	p.Opt.RingScale = min(max(p.Opt.RingScale, 4), 6)
 	p.Opt.ConnLifetimeMs = 0 // lifetime expiry re-sends commands (known finding under C03): not what this check is about
 	p.Sched = SchedSpec{CutProb: pick(r, 0.0, 0.3), C2SCutProb: pick(r, 0.0, 0.3), MaxSteps: 8000, TickWeight: pick(r, 0.3, 1.0)}
 	x := luaX{}
@@ -449,6 +448,26 @@ func luaRun(t *testing.T, seed uint64, p *Plan, x luaX, out *Outcome) *luaEnv {
 		// numbered in the order cluster._refresh created the multiplexers (Go map order): the close phase of a cluster
 		// client cannot be replayed; the event-log hash is taken at the end of the workload phase
 		hashMainPhase: x.Shards > 0,
+		noClose:       x.Shards > 0,
+		afterMain: func(e *env) {
+			if x.Shards == 0 || len(e.clients) == 0 {
+				return
+			}
+			// outside the hashed part of the run: close the cluster client and drive its per-node closers to their end,
+			// so that the bubble does not finish with their goroutines (and everything they pin) left behind
+			s := e.sim
+			s.Heal()
+			s.Cfg.MaxSteps = s.Step + 3000
+			e.background("close", func(context.Context) { e.clients[0].Close() })
+			s.Run(func() bool {
+				for _, l := range s.Links {
+					if !l.Dead {
+						return false
+					}
+				}
+				return true
+			})
+		},
 		beforeClient: func(e *env) {
 			le.env = e
 			s := e.sim
